@@ -157,6 +157,15 @@ func main() {
 	dumpRolesTo := flag.String("dumproles", "", "development: write the role fingerprints of -repo's functions to this file")
 	flag.Parse()
 	rolesFile = filepath.Join(*out, "checker", "roles.json")
+	if os.Getenv("ERGO_DUMP_WRAPPERS") != "" {
+		prog, err := loadProgram(*repo, quickConfigs[0])
+		if err == nil {
+			for w, impl := range prog.implOf {
+				fmt.Println(w.String(), "->", impl.String())
+			}
+		}
+		return
+	}
 	if os.Getenv("ERGO_DUMP_STATESETS") != "" {
 		prog, err := loadProgram(*repo, quickConfigs[0])
 		if err == nil {
